@@ -1,10 +1,11 @@
 #!/bin/bash
 # Build the verification framework from files on disk only (offline): regenerate the Lean sources
-# that are translated from /repo, build the proof library and the model driver.
+# that are translated from /repo, build the model driver and every property module.
 set -e
 cd "$(dirname "$0")"
 REPO="${VERIF_REPO:-/repo}"
 /venv/bin/python tools/translate.py --repo "$REPO"
 cd lean
-lake build drv Bluebell
+mods=$(ls Bluebell/Props/*.lean | sed 's|/|.|g; s|\.lean$||')
+lake build drv $mods
 echo "setup ok"
